@@ -7,6 +7,7 @@ package verifsync
 import (
 	"fmt"
 	"sync"
+	"sync/atomic"
 )
 
 type Mutex = sync.Mutex
@@ -129,6 +130,10 @@ type RWMutex struct {
 	writer  *Thread
 	readers map[*Thread]int
 	pending int // writers waiting in Lock
+	// unattached bookkeeping (see track): how often the real mutex is read-/write-held, so that
+	// unlocking a mutex that is not held is a recoverable panic the harness can report instead of
+	// the runtime's unrecoverable "fatal error: sync: Unlock of unlocked RWMutex".
+	rheld, wheld int32
 }
 
 // Attach makes the mutex a scheduling seam of s (nil detaches).
@@ -137,6 +142,9 @@ func (m *RWMutex) Attach(s *Sched) { m.s = s }
 func (m *RWMutex) Lock() {
 	if m.s == nil {
 		m.real.Lock()
+		if track {
+			atomic.AddInt32(&m.wheld, 1)
+		}
 		return
 	}
 	t := m.s.cur
@@ -148,6 +156,10 @@ func (m *RWMutex) Lock() {
 
 func (m *RWMutex) Unlock() {
 	if m.s == nil {
+		if track && atomic.AddInt32(&m.wheld, -1) < 0 {
+			atomic.AddInt32(&m.wheld, 1)
+			panic("verifsync: Unlock of an unlocked RWMutex (was the lock replaced while it was held?)")
+		}
 		m.real.Unlock()
 		return
 	}
@@ -161,6 +173,9 @@ func (m *RWMutex) Unlock() {
 func (m *RWMutex) RLock() {
 	if m.s == nil {
 		m.real.RLock()
+		if track {
+			atomic.AddInt32(&m.rheld, 1)
+		}
 		return
 	}
 	t := m.s.cur
@@ -173,6 +188,10 @@ func (m *RWMutex) RLock() {
 
 func (m *RWMutex) RUnlock() {
 	if m.s == nil {
+		if track && atomic.AddInt32(&m.rheld, -1) < 0 {
+			atomic.AddInt32(&m.rheld, 1)
+			panic("verifsync: RUnlock of an unlocked RWMutex (was the lock replaced while it was held?)")
+		}
 		m.real.RUnlock()
 		return
 	}
